@@ -79,6 +79,43 @@ def fillDiagonal {d : Nat} (M : Mat d d) (s : Rat) : Mat d d := fun i j => if i 
 /-- `Translation.pseudoinverse()`: the translation by the negated vector -/
 def translationInv {d : Nat} (H : HMat d) : HMat d := translationH (negV (transPart H))
 
+/-- `u.shape[0]` of a matrix -/
+@[reducible] def rowsOf {n m : Nat} (_ : Mat n m) : Nat := n
+
+/-- `s[:keep, None]`: the first `keep` entries of a vector as a column (what lies beyond `keep` is cut) -/
+structure ColK (n : Nat) where
+  keep : Nat
+  v : Vec n
+/-- `s < t` element-wise -/
+def belowV {m : Nat} (s : Vec m) (t : Rat) : Fin m → Bool := fun i => decide (s i < t)
+/-- `sum(mask)` of a Boolean vector -/
+def countTrue {m : Nat} (b : Fin m → Bool) : Nat := ((List.finRange m).filter b).length
+/-- `v[:keep, :]`: the cut rows contribute nothing to a product, so they are zeroed -/
+def rowsTo {n m : Nat} (keep : Nat) (V : Mat n m) : Mat n m := fun i j => if i.val < keep then V i j else 0
+/-- `sum(list of point sets)` -/
+def sumL {n d : Nat} (l : List (Mat n d)) : Mat n d := fun i j => (l.map fun P => P i j).sum
+
+/- numpy's arithmetic operators on the exact model, decided by the TYPES of the operands (so that one generic rule
+per operator serves every function and a refactoring may name any sub-expression).  Scoped: only
+`Generated/C07Src.lean` opens this namespace. -/
+namespace Np
+/-- `a - b` on point sets / matrices -/
+scoped instance subMat {n m : Nat} : HSub (Mat n m) (Mat n m) (Mat n m) := ⟨msub⟩
+/-- `a - b` on coordinate vectors -/
+scoped instance subVec {d : Nat} : HSub (Vec d) (Vec d) (Vec d) := ⟨fun a b => fun j => a j - b j⟩
+/-- `points - centre`: the vector is subtracted from every row -/
+scoped instance subRow {n d : Nat} : HSub (Mat n d) (Vec d) (Mat n d) := ⟨fun P c => fun i j => P i j - c j⟩
+/-- `-v` -/
+scoped instance negVec {d : Nat} : Neg (Vec d) := ⟨negV⟩
+/-- `point set / k` -/
+scoped instance divNat {n d : Nat} : HDiv (Mat n d) Nat (Mat n d) := ⟨fun P k => fun i j => P i j / (k : Rat)⟩
+/-- `1.0 / column` -/
+scoped instance divCol {n : Nat} : HDiv Rat (ColK n) (ColK n) := ⟨fun x c => ⟨c.keep, fun i => x / c.v i⟩⟩
+/-- `column * matrix`: row `i` of the matrix is scaled by entry `i` of the column; rows beyond the cut are dropped -/
+scoped instance mulCol {n m : Nat} : HMul (ColK n) (Mat n m) (Mat n m) :=
+  ⟨fun c V => fun i j => if i.val < c.keep then c.v i * V i j else 0⟩
+end Np
+
 /-! ### the Kabsch step with `np.linalg.svd` as a parameter -/
 
 /-- `optimal_rotation_matrix(source, target, allow_mirror)` given what `svd` answers -/
